@@ -233,7 +233,15 @@ def genexp(eng, node, st, fid):
     gen = _single_gen(node)
 
     def mk(s, seq):
-        i, cond, vals, extra = _element(eng, [node.elt], gen, s, fid, seq)
+        try:
+            i, cond, vals, extra = _element(eng, [node.elt], gen, s, fid, seq)
+        except Unsupported:
+            if seq.known_len is not None and seq.known_len <= 6 and seq.tag == "tuple":
+                # (f(b) for b in <tuple of fixed arity>), e.g. max(abs(b) for b in r.bounds): a tuple cannot be indexed
+                # symbolically; the elements are evaluated one by one, in order, and handed on as a tuple (the consumers
+                # min / max / sum / tuple() / a for loop read all of them at once anyway)
+                return _unrolled_list(eng, node, gen, s, fid, seq, as_tuple=True)
+            raise
         s = _with_extras(s, seq, i, cond, extra)
         return [("ok", s, VGen(seq, i, cond, vals[0]))]
     return eng.bind(_source_seq(eng, st, fid, gen), mk)
@@ -251,7 +259,7 @@ def listcomp(eng, node, st, fid):
     return eng.bind(_source_seq(eng, st, fid, gen), mk)
 
 
-def _unrolled_list(eng, node, gen, st, fid, seq):
+def _unrolled_list(eng, node, gen, st, fid, seq, as_tuple=False):
     cf = new_fid()
     outs = [("ok", st.with_frame(cf, fid, {}), [])]
     for k in range(seq.known_len):
@@ -278,7 +286,7 @@ def _unrolled_list(eng, node, gen, st, fid, seq):
                 return eng.bind(eng.eval(node.elt, s2, cf), lambda s3, v: [("ok", s3, acc + [v])])
             return eng.bind(conds, elt)
         outs = eng.bind(outs, step)
-    return eng.bind(outs, lambda s, vs: [B.list_from_values(eng, s, vs)])
+    return eng.bind(outs, lambda s, vs: [("ok", s, VTuple(vs))] if as_tuple else [B.list_from_values(eng, s, vs)])
 
 
 def gen_to_seq(eng, st, g):
